@@ -40,6 +40,8 @@ class Rewriter(ast.NodeTransformer):
             and not node.keywords
         ):
             return ast.Call(ast.Name("_sx_join", ast.Load()), [f.value, node.args[0]], [])
+        elif isinstance(f, ast.Attribute) and f.attr == "from_bytes" and isinstance(f.value, ast.Name) and f.value.id == "int" and "int" not in self.shadowed:
+            node.func = ast.Name("_sx_int_from_bytes", ast.Load())
         elif isinstance(f, ast.Attribute) and f.attr == "get" and 1 <= len(node.args) <= 2 and not node.keywords:
             # mapping.get(key[, default]) with a possibly symbolic key
             return ast.Call(ast.Name("_sx_get", ast.Load()), [f.value] + node.args, [])
